@@ -134,6 +134,39 @@ def apply_flags(e, fl):
     for k, f in zip(kids, fl[1]):
         apply_flags(k, f)
 
+def deser_expr_interned(s, regs=None, table=None):
+    """Like deser_expr, but structurally equal sub-trees become ONE shared object."""
+    import json
+    if table is None:
+        table = {}
+    k = json.dumps(s)
+    o = table.get(k)
+    if o is not None:
+        return o
+    E, MI = _mods()
+    t = s[0]
+    if t in ('I', 'D'):
+        o = deser_expr(s, regs)
+    elif t == 'M':
+        segm = deser_expr_interned(s[3], regs, table) if (s[3] is not None and s[3][0] != 'raw') else None
+        o = E.ExprMem(deser_expr_interned(s[1], regs, table), s[2], segm)
+        if s[4]:
+            o.is_term = True
+    elif t == 'O':
+        o = E.ExprOp(s[1], *[deser_expr_interned(a, regs, table) for a in s[2]])
+    elif t == 'S':
+        o = E.ExprSlice(deser_expr_interned(s[1], regs, table), s[2], s[3])
+    elif t == 'C':
+        o = E.ExprCompose([(deser_expr_interned(a[0], regs, table), a[1], a[2]) for a in s[1]])
+    elif t == '?':
+        o = E.ExprCond(*[deser_expr_interned(x, regs, table) for x in s[1:4]])
+    elif t == '=':
+        o = E.ExprAff(deser_expr_interned(s[1], regs, table), deser_expr_interned(s[2], regs, table))
+    else:
+        raise ValueError('bad serialisation %r' % (s,))
+    table[k] = o
+    return o
+
 def _key(x):
     import json
     return json.dumps(x, sort_keys=True)
